@@ -201,6 +201,110 @@ func init() {
 					fcases = append(fcases, fcase{ti, f})
 				}
 			}
+			// many files, deep directories, long names: every file is registered under its own name and renders its own content
+			secs = append(secs, core.Section{Name: "large-trees", Exhaustive: true, N: 7,
+				Run: func(c *core.Ctx, i int) {
+					files := map[string]string{}
+					layouts := map[string]bool{}
+					ext := []string{".tw", ".tw.html", ".t"}[i%3]
+					switch i {
+					case 0, 1, 2: // 60 / 300 / 1200 pages over 1 / 7 / 40 directories, with a layout and a component in each directory
+						nFiles, nDirs := []int{60, 300, 1200}[i], []int{1, 7, 40}[i]
+						for d := 0; d < nDirs; d++ {
+							files[fmt.Sprintf("d%d/layouts/l%s", d, ext)] = fmt.Sprintf("L%d<@reserve(\"b\")>", d)
+							layouts[fmt.Sprintf("d%d/layouts/l", d)] = true
+							files[fmt.Sprintf("d%d/components/c%s", d, ext)] = fmt.Sprintf("C%d", d)
+						}
+						for k := 0; k < nFiles; k++ {
+							d := k % nDirs
+							switch k % 3 {
+							case 0:
+								files[fmt.Sprintf("d%d/p%d%s", d, k, ext)] = fmt.Sprintf("page %d", k)
+							case 1:
+								files[fmt.Sprintf("d%d/p%d%s", d, k, ext)] = fmt.Sprintf("@use(\"d%d/layouts/l\")@insert(\"b\", \"page %d\")", d, k)
+							default:
+								files[fmt.Sprintf("d%d/sub/p%d%s", d, k, ext)] = fmt.Sprintf("page %d @component(\"d%d/components/c\")", k, d)
+							}
+						}
+					case 3, 4: // directories 12 / 40 levels deep
+						depth := []int{12, 40}[i-3]
+						dir := ""
+						for l := 0; l < depth; l++ {
+							dir += fmt.Sprintf("level%d/", l)
+							files[dir+"page"+ext] = fmt.Sprintf("page at depth %d", l+1)
+						}
+					default: // names of 100 / 200 characters, with dots, dashes and the text of the extension inside
+						ln := []int{100, 200}[i-5]
+						stem := strings.Repeat("long-name.tw.x_", ln/15+1)[:ln]
+						files[stem+ext] = "long one"
+						files[stem+"2"+ext] = "long two"
+						files["sub/"+stem+ext] = "long three"
+						files[stem[:ln-1]+ext] = "shorter by one"
+					}
+					if err := writeFilesFresh("c18big", files); err != nil {
+						c.Inconclusive(err.Error())
+						return
+					}
+					defer os.RemoveAll("c18big")
+					c.Input(map[string]any{"files": len(files), "case": i})
+					c.Nontrivial(fmt.Sprint("large-tree", i))
+					tpl, err, panicked := newTemplate(c, "c18big", ext)
+					if panicked {
+						return
+					}
+					if err != nil || tpl == nil {
+						c.Violation("naming:large-tree:load-failed", fmt.Sprintf("a valid tree of %d files did not load: %v", len(files), err), map[string]any{"case": i})
+						return
+					}
+					want := map[string]bool{}
+					for f := range files {
+						if n := strings.TrimSuffix(f, ext); !layouts[n] {
+							want[n] = true // (layouts are not directly renderable: they are not among the names)
+						}
+					}
+					got := map[string]bool{}
+					for _, n := range tpl.VerifNames() {
+						got[n] = true
+					}
+					for n := range want {
+						if !got[n] {
+							c.Violation("naming:large-tree:missing", fmt.Sprintf("the file %q is not registered (%d of %d names are)", n+ext, len(got), len(want)), map[string]any{"case": i})
+							return
+						}
+					}
+					for n := range got {
+						if !want[n] {
+							c.Violation("naming:large-tree:extra", fmt.Sprintf("the name %q is registered but no such file exists", n), map[string]any{"case": i})
+							return
+						}
+					}
+					for f, content := range files {
+						n := strings.TrimSuffix(f, ext)
+						o, _ := renderPage(c, tpl, n, nil)
+						if o.Panicked {
+							return
+						}
+						switch {
+						case layouts[n]:
+							if o.Err == nil {
+								c.Violation("naming:large-tree:layout-rendered", fmt.Sprintf("the layout %q rendered directly", n), map[string]any{"case": i})
+								return
+							}
+						case strings.Contains(content, "@"):
+							k := strings.TrimPrefix(n[strings.LastIndex(n, "/")+1:], "p")
+							if o.Err != nil || !strings.Contains(o.Out, "page "+k) {
+								c.Violation("naming:large-tree:wrong-content", fmt.Sprintf("name %q rendered %s", n, clipS(o.Describe(), 200)), map[string]any{"case": i})
+								return
+							}
+						default:
+							if o.Err != nil || o.Out != content {
+								c.Violation("naming:large-tree:wrong-content", fmt.Sprintf("name %q rendered %s, want %q", n, clipS(o.Describe(), 200), content), map[string]any{"case": i})
+								return
+							}
+						}
+					}
+					c.Count("large_tree_names_rendered", len(files))
+				}})
 			secs = append(secs, core.Section{Name: "faults", Exhaustive: true, N: len(fcases),
 				Run: func(c *core.Ctx, i int) {
 					fc := fcases[i]
